@@ -6,6 +6,7 @@ from z3 import (BitVec, BitVecVal, BoolVal, If, And, Or, Not, ULT, ULE, UGT, UGE
                 ZeroExt, SignExt, Concat, is_true, is_false, simplify, sat, unsat)
 from .prog import Prog, Unsupported, b64
 from .values import *
+from . import domains
 
 sys.setrecursionlimit(20000)
 
@@ -27,12 +28,23 @@ class Ctx:
         self.base = []          # global assumptions (input domain), added to the solver
         self.stats = Counter()
         self.solver_time = 0.0
+        self.dom0 = {}
+        self.mvars0 = frozenset()
 
     def assume(self, c):
         if c is True:
             return
         self.base.append(c)
         self.solver.add(c)
+        r = domains.reduce(domains.structure(c), self.dom0)
+        if r is False:
+            raise Inconclusive('contradictory input assumptions')
+        if r is True:
+            return
+        if r[0] == 'conj' and not (set(r[1]) & self.mvars0):
+            self.dom0.update(r[1])
+        else:
+            self.mvars0 = self.mvars0 | frozenset(v for v in domains.free_vars(c) if v is not None)
 
     def check(self, conjs):
         """returns a model if conjs (with the base assumptions) is satisfiable, None if not"""
@@ -58,17 +70,19 @@ class Ctx:
 
 
 class State:
-    __slots__ = ('guard', 'heap', 'model', 'aux')
+    __slots__ = ('guard', 'heap', 'model', 'aux', 'dom', 'mvars')
 
-    def __init__(self, guard=(), heap=None, model=None, aux=None):
+    def __init__(self, guard=(), heap=None, model=None, aux=None, dom=None, mvars=frozenset()):
         self.guard = guard
         self.heap = heap if heap is not None else {}
         self.model = model
         self.aux = aux if aux is not None else {}
+        self.dom = dom if dom is not None else {}
+        self.mvars = mvars
 
     def fork(self, cond=None, model=None):
         g = self.guard if cond is None or cond is True else self.guard + (cond,)
-        return State(g, dict(self.heap), model, dict(self.aux))
+        return State(g, dict(self.heap), model, dict(self.aux), dict(self.dom), self.mvars)
 
 
 class Frame:
@@ -520,6 +534,21 @@ class Interp:
                 break
         return n
 
+    def merge_domains(self, s1, s2):
+        """s1 absorbs s2 (guards are or-ed by the caller): domains become unions, every variable of the diverging
+        conjuncts is handed to the solver from now on"""
+        n = self._common(s1.guard, s2.guard)
+        mv = set(s1.mvars) | set(s2.mvars)
+        for c in s1.guard[n:] + s2.guard[n:]:
+            for v in domains.free_vars(c):
+                if v is not None:
+                    mv.add(v)
+        s1.mvars = frozenset(mv)
+        d = {}
+        for v in set(s1.dom) | set(s2.dom):
+            d[v] = s1.dom.get(v, domains.FULL) | s2.dom.get(v, domains.FULL)
+        s1.dom = d
+
     def or_guards(self, g1, g2):
         n = self._common(g1, g2)
         r1, r2 = g1[n:], g2[n:]
@@ -544,37 +573,59 @@ class Interp:
             return []
         if len(live) == 1 and live[0][0] is True:
             return [(st, live[0][1])]
-        out = []
+        out = []   # (cond to add or True, model, payload, domain refinement or None)
         if not self.feas:
             for c, pay in live:
-                out.append((c, None, pay))
+                out.append((c, None, pay, None))
         else:
+            pend = []
+            for c, pay in live:
+                if c is True:
+                    out.append((c, st.model, pay, None))
+                    continue
+                r = domains.reduce(domains.structure(c), st.dom)
+                if r is False:
+                    self.ctx.stats['dom_infeasible'] += 1
+                    continue
+                if r is True:
+                    self.ctx.stats['dom_implied'] += 1
+                    out.append((True, st.model, pay, None))
+                    continue
+                if r[0] == 'conj' and not (st.mvars and (set(r[1]) & st.mvars)):
+                    self.ctx.stats['dom_decided'] += 1
+                    m = st.model if (st.model is not None and eval_bool(st.model, c) is True) else None
+                    out.append((c, m, pay, r[1]))
+                    continue
+                pend.append((c, pay))
             witnessed = None
             if st.model is not None:
-                for i, (c, pay) in enumerate(live):
+                for i, (c, pay) in enumerate(pend):
                     if eval_bool(st.model, c) is True:
                         witnessed = i
                         break
-            for i, (c, pay) in enumerate(live):
-                if c is True:
-                    out.append((c, st.model, pay))
-                elif i == witnessed:
+            for i, (c, pay) in enumerate(pend):
+                if i == witnessed:
                     self.ctx.stats['witnessed'] += 1
-                    out.append((c, st.model, pay))
+                    out.append((c, st.model, pay, 'mv'))
                 else:
                     m = self.ctx.check(st.guard + (c,))
                     if m is not None:
-                        out.append((c, m, pay))
+                        out.append((c, m, pay, 'mv'))
         res = []
-        for j, (c, m, pay) in enumerate(out):
+        for j, (c, m, pay, ref) in enumerate(out):
             if j == len(out) - 1:
+                s2 = st
                 if c is not True:
                     st.guard = st.guard + (c,)
                 st.model = m
-                res.append((st, pay))
             else:
                 self.stats['forks'] += 1
-                res.append((st.fork(c, m), pay))
+                s2 = st.fork(c, m)
+            if ref == 'mv':
+                s2.mvars = s2.mvars | frozenset(v for v in domains.free_vars(c) if v is not None)
+            elif ref:
+                s2.dom.update(ref)
+            res.append((s2, pay))
         return res
 
     # ------------------------------------------------------------------ integer helpers
@@ -1181,6 +1232,7 @@ class Interp:
                         nr[r] = a if a is b else self.merge_value(cb, a, b, regt.get(r))
                     m.regs = nr
                     m.st.heap = nh
+                    self.merge_domains(m.st, fr.st)
                     m.st.guard = self.or_guards(m.st.guard, fr.st.guard)
                     m.st.model = m.st.model or fr.st.model
                     self.stats['merges'] += 1
@@ -1243,6 +1295,7 @@ class Interp:
                     else:
                         nv = self.merge_value(c, m.val, o.val, sigres)
                     m.st.heap = nh
+                    self.merge_domains(m.st, o.st)
                     m.st.guard = self.or_guards(m.st.guard, o.st.guard)
                     m.st.model = m.st.model or o.st.model
                     merged[i] = Outcome(m.st, 'ret', nv)
@@ -1800,4 +1853,4 @@ class Interp:
         self.base_heap = st.heap
 
     def new_state(self):
-        return State((), dict(self.base_heap))
+        return State((), dict(self.base_heap), dom=dict(self.ctx.dom0), mvars=self.ctx.mvars0)
